@@ -484,7 +484,7 @@ fn replay(path: &str) -> i32 {
 
 fn main() {
     register_runners(vec![
-        cvh_i0::run, cvh_i1::run, cvh_i2::run, cvh_i3::run, cvh_i4::run, cvh_i5::run, cvh_i6::run, cvh_i7::run, cvh_i8::run, cvh_i9::run, cvh_i10::run,
+        cvh_i0::run, cvh_i1::run, cvh_i2::run, cvh_i3::run, cvh_i4::run, cvh_i5::run, cvh_i6::run, cvh_i7::run, cvh_i8::run, cvh_i9::run, cvh_i10::run, cvh_i11::run,
     ]);
     {
         let mut v: Vec<StaticCase> = vec![];
